@@ -310,7 +310,7 @@ class C14(Check):
         model = collections.OrderedDict()
         events = []
 
-        CTX = ['plain'] * 6 + ['except', 'except', 'task', 'aexit']
+        CTX = ['plain'] * 6 + ['except', 'except', 'task', 'aexit', 'cancelling', 'cleanup', 'taskgroup']
 
         async def call_in(ctx, a, kw):
             """the same call from different calling contexts: plain, while the caller is handling an exception, from
@@ -334,6 +334,54 @@ class C14(Check):
                 async with cm:
                     raise LookupError('leaving the block')
                 return cm.r
+            if ctx == 'cancelling':
+                # a long-lived worker that was cancelled once, caught it and went on: Task.cancelling() stays at 1
+                async def worker():
+                    me = asyncio.current_task()
+                    asyncio.get_running_loop().call_soon(me.cancel)
+                    try:
+                        await asyncio.sleep(3600)
+                    except asyncio.CancelledError:
+                        pass
+                    st['caller_task_cancelling_count_positive'] += me.cancelling() > 0
+                    return await cf(*a, **kw)
+                return await asyncio.ensure_future(worker())
+            if ctx == 'cleanup':
+                # clean-up code in the finally block of a task that is being cancelled (and stays cancelled)
+                got = {}
+
+                async def worker():
+                    try:
+                        await asyncio.sleep(3600)
+                    finally:
+                        st['caller_task_cancelling_count_positive'] += asyncio.current_task().cancelling() > 0
+                        got['r'] = await cf(*a, **kw)
+                t = asyncio.ensure_future(worker())
+                await asyncio.sleep(0)
+                t.cancel()
+                try:
+                    await t
+                except asyncio.CancelledError:
+                    pass
+                return got['r']
+            if ctx == 'taskgroup':
+                # the body of a TaskGroup that goes on after a sibling failed (the group has already cancelled it once)
+                got = {}
+
+                async def failing():
+                    raise LookupError('sibling')
+                try:
+                    async with asyncio.TaskGroup() as tg:
+                        tg.create_task(failing())
+                        try:
+                            await asyncio.sleep(3600)
+                        except asyncio.CancelledError:
+                            st['caller_task_cancelling_count_positive'] += asyncio.current_task().cancelling() > 0
+                            got['r'] = await cf(*a, **kw)
+                            raise
+                except* LookupError:
+                    pass
+                return got['r']
             return await cf(*a, **kw)
 
         import zlib
@@ -479,7 +527,7 @@ class C14(Check):
         return {'nontrivial': 20000 * k, 'cache_hostile': 3000 * k, 'evicted_key_requested_again': 2000 * k,
                 'concurrent_with_cancelled_waiter_then_evicted': 500 * k, 'calls_after_a_value_was_returned': 1500 * k,
                 'concurrent_with_resumed_loop': 150 * k, 'hits_between_distinct_but_equal_signatures': 15000 * k, 'evictions': 3000 * k,
-                'lru_evictions_predicted': 3000 * k, 'model_hits': 50000 * k, 'model_misses': 50000 * k}
+                'lru_evictions_predicted': 3000 * k, 'caller_task_cancelling_count_positive': 10000 * k, 'model_hits': 50000 * k, 'model_misses': 50000 * k}
 
 
 def get_check(pid):
